@@ -50,6 +50,7 @@ var commentPool = []string{"Describes the thing.", "See the design document for 
 var pkgPool = []string{"acme.foo.v1", "acme.bar.v1beta1", "zoo.v2", "acme.baz_qux.v1alpha2", "x1.y.v1p1beta1", "pkg.v1test", "acme.w2.v3"}
 var filePool = []string{"types", "service", "more_types", "api2", "a_1", "common", "x"}
 var mapKeyPool = []string{"string", "int32", "int64", "bool", "uint32"}
+var oddNumbers = []int{-1, -7, 100, 5, 3, 2147483647, -2147483648, 12, -2}
 var groupPool = []string{"Result", "Item", "FooGrp", "Entry2", "HTTPInfo", "G", "SubPart"}
 
 // optValuePool: NON-default values of the seven PACKAGE_SAME_* options (java_multiple_files: the
@@ -150,6 +151,8 @@ type gen struct {
 	collide    bool
 	pascalSeen []pascalName
 	rpcNames   map[string][]string // package scope -> RPC names used by its services
+	// wide workspaces (wide.go): the next service gets exactly this many RPCs (0 = random 1..3)
+	fixRpcs int
 }
 
 // caseTwin: a PascalCase name that differs from n in the CASE of one letter only (and is itself
@@ -288,16 +291,34 @@ func (g *gen) enum(scope string, nestedPrefix string, fi int, proto3 bool) enumT
 	e.values = append(e.values, valueT{name: n.upper + g.o.zero(), comment: g.comment(), number: 0, noise: g.noise(fieldNoise, 1, 8)})
 	k := 1 + g.r.Intn(3)
 	usedV := map[string]bool{}
+	// what the documentation leaves free stays free in a clean enum: the NUMBERS of the values after the
+	// zero value (1/3 of the enums: negative, descending, sparse, the int32 bounds)
+	odd := g.r.Chance(1, 3)
+	usedN := map[int]bool{0: true}
 	for i := 0; i < k; i++ {
 		v := hx.Pick(g.r, valuePool)
 		if usedV[v] {
 			continue
 		}
 		usedV[v] = true
+		num := len(e.values)
+		if odd {
+			num = hx.Pick(g.r, oddNumbers)
+			if usedN[num] {
+				num = 200 + len(e.values)
+			}
+		}
+		usedN[num] = true
 		// enum value names are scoped to the enclosing scope of the enum: the prefix makes them unique
-		e.values = append(e.values, valueT{name: n.upper + "_" + v, comment: g.comment(), number: len(e.values), noise: g.noise(fieldNoise, 1, 8)})
+		e.values = append(e.values, valueT{name: n.upper + "_" + v, comment: g.comment(), number: num, noise: g.noise(fieldNoise, 1, 8)})
 	}
-	g.avail = append(g.avail, avail{ref{fi, nestedPrefix + e.name}, true, proto3})
+	// editions: a third of the enums is CLOSED (`option features.enum_type = CLOSED;`) — with the zero
+	// value first such an enum is as clean as an open one.  A closed enum is not offered to proto3 files.
+	f := g.w.files[fi]
+	if f.syntax == "editions" && !f.enumClosed && g.r.Chance(1, 3) {
+		e.closed = true
+	}
+	g.avail = append(g.avail, avail{ref{fi, nestedPrefix + e.name}, true, proto3 && !e.closed && !f.enumClosed})
 	return e
 }
 
@@ -459,6 +480,9 @@ func (g *gen) service(fi int, pkgScope string) svcT {
 	s := svcT{name: base.pascal + g.o.svc(), comment: g.comment(), noise: g.noise(svcNoise, 1, 4)}
 	g.used[pkgScope+"\x00"+s.name] = true
 	n := 1 + g.r.Intn(3)
+	if g.fixRpcs > 0 {
+		n = g.fixRpcs
+	}
 	for i := 0; i < n; i++ {
 		g.rpcCount++
 		rn := hx.Pick(g.r, rpcVerbs) + hx.Pick(g.r, pascalPool).pascal
@@ -672,7 +696,7 @@ func genWorkspace(r *hx.Rand, o lintOpts) *wsT {
 				opts[k] = cfg[k][i]
 			}
 			g.w.files = append(g.w.files, &fileT{path: strings.ReplaceAll(pkg, ".", "/") + "/" + names[i] + ".proto", pkg: pkg, syntax: syntax, opts: opts,
-				noise: g.noise(fileNoise, 1, 5)})
+				noise: g.noise(fileNoise, 1, 5), enumClosed: syntax == "editions" && r.Chance(1, 4)})
 		}
 	}
 	g.depIdx = len(g.w.files)
